@@ -88,9 +88,14 @@ pub fn encode(convert: &dyn Fn(usize) -> bool, data: &[u8]) -> [Vec<u8>; 4] {
 }
 
 /// delivers 1..=max bytes per read call
-struct Pieces { data: Vec<u8>, pos: usize, sizes: Vec<usize>, i: usize }
+struct Pieces { data: Vec<u8>, pos: usize, sizes: Vec<usize>, i: usize, intr: usize, calls: usize }
 impl std::io::Read for Pieces {
     fn read(&mut self, buf: &mut [u8]) -> std::io::Result<usize> {
+        // `intr = k > 0`: every k-th call of this stream reports Interrupted (a retry gets the data)
+        self.calls += 1;
+        if self.intr > 0 && self.calls % self.intr == 0 {
+            return Err(std::io::Error::new(std::io::ErrorKind::Interrupted, "injected interrupt"));
+        }
         let left = self.data.len() - self.pos;
         if left == 0 || buf.is_empty() {
             return Ok(0);
@@ -104,8 +109,13 @@ impl std::io::Read for Pieces {
 }
 
 pub fn real_decode(streams: &[Vec<u8>; 4], size: u64, sizes: &[usize], read_sched: &[usize]) -> Outcome<Vec<u8>> {
+    real_decode_intr(streams, size, sizes, read_sched, [0; 4])
+}
+
+/// as `real_decode`, stream `k` reporting `Interrupted` on every `intr[k]`-th read call (0 = never)
+pub fn real_decode_intr(streams: &[Vec<u8>; 4], size: u64, sizes: &[usize], read_sched: &[usize], intr: [usize; 4]) -> Outcome<Vec<u8>> {
     guard(|| {
-        let inputs: Vec<Pieces> = streams.iter().enumerate().map(|(k, s)| Pieces { data: s.clone(), pos: 0, sizes: if k == 0 && sizes.len() > 1 { vec![] } else { sizes.to_vec() }, i: k }).collect();
+        let inputs: Vec<Pieces> = streams.iter().enumerate().map(|(k, s)| Pieces { data: s.clone(), pos: 0, sizes: if k == 0 && sizes.len() > 1 { vec![] } else { sizes.to_vec() }, i: k, intr: intr[k], calls: 0 }).collect();
         let mut r = BCJ2Reader::new(inputs, size);
         read_all_sched(&mut r, read_sched, size as usize + 16)
     })
